@@ -1,3 +1,3 @@
-import rg_common
-A = rg_common.pairs()
-PAIRS = [A[k] for k in ("thread_free_collect", "try_use_delayed_free", "free_block_delayed_mt", "delayed_free_partial")]
+import rg_common, page_common
+A = rg_common.pairs(); P = page_common.pairs()
+PAIRS = [A[k] for k in ("thread_free_collect", "try_use_delayed_free", "free_block_delayed_mt", "delayed_free_partial")] + [P[k] for k in ("free_block_local", "unfull", "to_full")]
